@@ -49,12 +49,26 @@ class Resolver:
             target = dns.name.from_text(name + ".") if spelling == 0 else dns.name.from_text(name, origin=None)
             out.append(dns.rdtypes.IN.SRV.SRV(dns.rdataclass.IN, dns.rdatatype.SRV, prio, weight, 1000 + i, target))
         self.world.stats["dns"] += 1
-        return out
+        # a real dnspython Answer (with the TTL-derived expiration a caching layer would look at), not just a list of records
+        import dns.message
+        import dns.resolver
+        import dns.rrset
+
+        qn = dns.name.from_text(str(qname).rstrip(".") + ".")
+        resp = dns.message.make_response(dns.message.make_query(qn, dns.rdatatype.SRV))
+        rr = resp.find_rrset(resp.answer, qn, dns.rdataclass.IN, dns.rdatatype.SRV, create=True)
+        for rd in out:
+            rr.add(rd, self.ttl)
+        ans = dns.resolver.Answer(qn, dns.rdatatype.SRV, dns.rdataclass.IN, resp)
+        if len(list(ans)) != len(out):  # (identical records would collapse in an RRset: fall back to the plain list)
+            return out
+        return ans
 
     def resolve(self, qname, rdtype="A", *a, **kw):
         return self._answer(qname, rdtype, a, kw)
 
     latency_s = 0.0
+    ttl = 300
 
     async def aresolve(self, qname, rdtype="A", *a, **kw):
         if self.latency_s:
@@ -97,12 +111,50 @@ def run_burst(case) -> dict:
             "probes": {"async_bursts": 1}, "vtime_ns": world.stats.get("vtime_ns", 0)}
 
 
+def run_unreachable(case) -> dict:
+    """["unreach", record indices, domain]: a protect call with no server given finds the DC through DNS, and the connection to that DC is
+    refused (it is down).  A later lookup in the same process - same answer set - must still return the best record: what a
+    connection attempt experienced is not part of the selection rule."""
+    import dpapi_ng
+    import dpapi_ng._dns as ddns
+
+    _, idxs, domain = case
+    records = [RECORD_TYPES[i] for i in idxs]
+    world = W.World(len(idxs))
+    res = Resolver(world, records)
+    best_prio = min(r[0] for r in records)
+    best_weight = max(r[1] for r in records if r[0] == best_prio)
+    viol = None
+    outs = {}
+    with world.installed(resolver=res, patch_entropy=False):
+        for fl in ("sync", "async"):
+            # nothing listens anywhere: whichever DC is chosen refuses the connection
+            if fl == "sync":
+                first = drive.classify(lambda: dpapi_ng.ncrypt_protect_secret(b"x", "S-1-5-21-1-2-3-500", domain_name=domain or None))
+                outs[fl] = drive.classify(lambda: ddns.lookup_dc(domain))
+            else:
+                first = drive.classify(lambda: drive.run_async(world, lambda: dpapi_ng.async_ncrypt_protect_secret(b"x", "S-1-5-21-1-2-3-500", domain_name=domain or None)))
+                outs[fl] = drive.classify(lambda: drive.run_async(world, lambda: ddns.async_lookup_dc(domain)))
+            if first.kind != "raise":
+                raise common.HarnessError(f"protect with no reachable DC returned {first.brief()}")
+            o = outs[fl]
+            if o.kind != "ok" or (o.value.priority, o.value.weight) != (best_prio, best_weight):
+                viol = common.violation("C20", "selection" if o.kind == "ok" else "lookup-failed", fl, "after-connection-failure", "", "",
+                                        f"after a call whose connection to the selected DC was refused, the lookup gave {o.value if o.kind == 'ok' else o.exc!r}; best is priority {best_prio} "
+                                        f"weight {best_weight}; records={records} domain={domain!r}")
+                break
+    return {"viol": viol, "digest": world.digest(), "key": common.key_hash(case), "fired": {"dns": world.stats.get("dns", 0), "noconn": world.stats.get("noconn", 0)},
+            "probes": {"after_connection_failure": 1}, "vtime_ns": world.stats.get("vtime_ns", 0)}
+
+
 def run(case) -> dict:
     """case: [records as indices into RECORD_TYPES, domain or None]"""
     import dpapi_ng._dns as ddns
 
     if case[0] == "burst":
         return run_burst(case)
+    if case[0] == "unreach":
+        return run_unreachable(case)
 
     idxs, domain = case[:2]
     hosts = case[2] if len(case) > 2 and case[2] else None      # host id per record (repeated targets)
@@ -124,6 +176,8 @@ def run(case) -> dict:
                 else:
                     drive.classify(lambda: drive.run_async(world, lambda: ddns.async_lookup_dc(domain)))
                 res.records = records
+                # ... and the records' TTL has run out in the meantime
+                world.clock.advance_ns((res.ttl + 5 + len(idxs)) * 1_000_000_000)
                 probes_extra["after_earlier_lookup"] = 1
             for attempt in range(fails + 1):
                 # a lookup that failed (resolver fault) is simply repeated by the caller, in the same process
@@ -184,12 +238,12 @@ class C20(common.Check):
             "length 5 = 1.9 M exhaustively in thorough, sampled in quick), each through lookup_dc and async_lookup_dc; answers of 2..3 records in which "
             "several records name the same host (all host assignments); resolver faults (the first 1..2 queries time out or return NXDOMAIN and "
             "the caller repeats the lookup in the same process); the same name looked up twice while the answer set changed in between; bursts of 2..9 async lookups in flight at once on one "
-            "event loop and then again on a second event loop of the same process; the client host's own DNS suffix differs from the AD domain. Non-trivial = more than "
+            "event loop and then again on a second event loop of the same process; a lookup after a call whose connection to the selected DC was refused; records are real dnspython Answer objects whose TTL runs out between two lookups; the client host's own DNS suffix differs from the AD domain. Non-trivial = more than "
             "one record or a trailing-dot target; distinct = distinct (sequence, domain).")
     components = {"selection code": "real (dpapi_ng._dns lookup_dc / async_lookup_dc / _get_highest_answer)", "resolver": "stub node returning real dnspython SRV rdata",
                   "async runtime": "simulated loop"}
     assumptions = ["no DNS wire format is simulated: dnspython is a dependency, not the system under test", "ties between equal (priority, weight) records are not judged beyond sync == async"]
-    required_fired = ("trailing_dot", "relative_target", "ties", "dns_reorder", "repeated_target", "after_resolver_fault", "dns_fault", "after_earlier_lookup", "async_bursts")
+    required_fired = ("trailing_dot", "relative_target", "ties", "dns_reorder", "repeated_target", "after_resolver_fault", "dns_fault", "after_earlier_lookup", "async_bursts", "after_connection_failure")
 
     def exhaustive(self, tier):
         return True
@@ -220,6 +274,9 @@ class C20(common.Check):
             a = [rng0.randrange(n) for _ in range(rng0.randint(1, 4))]
             b_ = [rng0.randrange(n) for _ in range(len(a))] if rng0.random() < 0.7 else [rng0.randrange(n) for _ in range(rng0.randint(1, 4))]
             out.append([b_, rng0.choice(("corp.example", None)), None, 0, a])
+        # a call that found its DC through DNS could not connect to it; then the same name is looked up again
+        for _ in range(300 if tier == "quick" else 8000):
+            out.append(["unreach", [rng0.randrange(n) for _ in range(rng0.randint(2, 4))], rng0.choice(("corp.example", None))])
         # bursts of concurrent async lookups on one event loop, then again on a second event loop of the same process
         for _ in range(200 if tier == "quick" else 5000):
             out.append(["burst", [rng0.randrange(n) for _ in range(rng0.randint(1, 4))], rng0.choice(("corp.example", None)), rng0.randint(2, 9), rng0.randint(2, 9)])
@@ -233,7 +290,7 @@ class C20(common.Check):
         return run(case)
 
     def shrink(self, case):
-        if case[0] == "burst":
+        if case[0] in ("burst", "unreach"):
             return
         idxs, dom = case[:2]
         if len(case) > 2:
@@ -248,6 +305,8 @@ class C20(common.Check):
     def sample_repr(self, case, res):
         if case[0] == "burst":
             return dict(zip(("kind", "records", "domain", "concurrent_lookups_loop_1", "concurrent_lookups_loop_2"), case))
+        if case[0] == "unreach":
+            return dict(zip(("kind", "records", "domain"), case))
         return {"records_priority_weight_spelling": [RECORD_TYPES[i] for i in case[0]], "domain": case[1], "host_per_record": case[2] if len(case) > 2 else None,
                 "failing_queries_before": case[3] if len(case) > 3 else 0, "earlier_answer_set": [RECORD_TYPES[i] for i in case[4]] if len(case) > 4 else None}
 
